@@ -1,5 +1,6 @@
 """C03 - hashes, XOFs and MACs equal their standards; MAC verification accepts exactly the defined tag."""
 import json
+import os
 import re
 from concurrent.futures import ThreadPoolExecutor
 
@@ -76,6 +77,9 @@ def describe(t):
 
 def run(ctx):
     quick = ctx.tier == "quick"
+    # 16 shard JVMs with the default maximum heap (a quarter of the RAM each) can exhaust the machine when other checks run too;
+    # a shard of this property needs far less (tlc.run passes os.environ on to the JVM)
+    os.environ.setdefault("JAVA_TOOL_OPTIONS", "-Xmx3g")
     pool = ThreadPoolExecutor(max_workers=2)
     # 0. the oracle is validated before it is believed (in the background; joined before any verdict is used)
     st = pool.submit(selftest, ["SpongesLongKat"] + MODULES)
